@@ -35,16 +35,24 @@ pub fn cardinal(n: u64, c: &mut dyn Chooser) -> Vec<String> {
     let g = groups(n);
     let names = ["", "thousand", "million", "billion"];
     let mut first = true;
+    // rare variant: each group is hyphenated with its scale word into one token ("twenty-one-thousand five")
+    let hyphen_groups = c.pick(8) == 7;
     for i in (0..4).rev() {
         if g[i] == 0 { continue; }
+        let start = out.len();
         if i == 0 {
             // "and" before a final group < 100 when something precedes ("one thousand and five")
             if !first && g[0] < 100 && c.flag() { out.push(s("and")); }
             group(g[0], c, &mut out, first);
         } else {
-            // bare "thousand" (implicit one) only when leading
-            if g[i] == 1 && first && i == 1 && c.pick(4) == 3 { } else { group(g[i], c, &mut out, first); }
+            // bare scale word (implicit one) only when leading: "thousand five", "million two hundred"
+            if g[i] == 1 && first && c.pick(4) == 3 { } else { group(g[i], c, &mut out, first); }
             out.push(if g[i] > 1 && c.pick(4) == 3 { format!("{}s", names[i]) } else { s(names[i]) });
+            if hyphen_groups && out.len() - start >= 2 && !out[start..].iter().any(|w| w == "and") {
+                let joined = out[start..].join("-");
+                out.truncate(start);
+                out.push(joined);
+            }
         }
         first = false;
     }
@@ -64,6 +72,7 @@ pub fn ordinal(n: u64, c: &mut dyn Chooser) -> (Vec<String>, String) {
     let last = w.pop().unwrap();
     let last = if ["hundreds", "thousands", "millions", "billions"].contains(&last.as_str()) { last[..last.len() - 1].to_string() } else { last };
     let (head, tail) = match last.rfind('-') { Some(i) => (last[..=i].to_string(), last[i + 1..].to_string()), None => (String::new(), last.clone()) };
+    let tail = if ["hundreds", "thousands", "millions", "billions"].contains(&tail.as_str()) { tail[..tail.len() - 1].to_string() } else { tail };
     let mut o = ord_word(&tail);
     let mut marker = if o == "first" { s("st") } else if o == "second" { s("nd") } else if o == "third" { s("rd") } else { s("th") };
     if (marker == "th" || marker == "rd") && plural { o.push('s'); marker.push('s'); }
